@@ -74,7 +74,34 @@ func runC09(c *Ctx) {
 	rrm := p.MustFunc("(*operation).readRequestMessage")
 	ebT, _ := envTypes(p)
 	var payloadReads []*ssa.Call
-	for _, call := range Calls(rrm) {
+	// the reader and the helpers it was split into (refactoring B21_r6: readBodyAsMessage /
+	// readMessagePayload); a helper's error is returned by its caller unchanged or the caller is
+	// judged by the same rule through C09.4
+	rrmParts := []*ssa.Function{rrm}
+	{
+		seenP := map[*ssa.Function]bool{rrm: true}
+		frontier := []*ssa.Function{rrm}
+		for depth := 0; depth < 2; depth++ {
+			var next []*ssa.Function
+			for _, f := range frontier {
+				for _, call := range Calls(f) {
+					g := call.Common().StaticCallee()
+					if g == nil || seenP[g] || !p.inScope(g) || len(g.Blocks) == 0 || !p.OnlyCalledWithin(g, rrm) {
+						continue
+					}
+					seenP[g] = true
+					rrmParts = append(rrmParts, g)
+					next = append(next, g)
+				}
+			}
+			frontier = next
+		}
+	}
+	var allCalls []ssa.CallInstruction
+	for _, f := range rrmParts {
+		allCalls = append(allCalls, Calls(f)...)
+	}
+	for _, call := range allCalls {
 		cv, ok := call.(*ssa.Call)
 		if !ok || !IsCallTo(cv, "io.CopyN", "io.ReadFull", "io.ReadAtLeast", "io.Copy") {
 			continue
@@ -108,9 +135,12 @@ func runC09(c *Ctx) {
 		bad := 0
 		for _, cp := range paths {
 			ret := cp.End.(*ssa.Return)
+			if len(ret.Results) == 0 {
+				continue
+			}
 			// the read's error itself, or a wrapper that errors.Is sees through (seed C09n:
 			// fmt.Errorf("... %w", err) keeps the io.EOF it was meant to replace)
-			if rv := cp.Deref(ret.Results[0]); rv != errV && !wrapsError(rv, errV, &cp) {
+			if rv := cp.Deref(ret.Results[len(ret.Results)-1]); rv != errV && !wrapsError(rv, errV, &cp) {
 				continue
 			}
 			notEOF := false
